@@ -382,6 +382,13 @@ func (s *c30Server) run(cs c30Case) (stage, got, want, csvText string, keyClasse
 	defer os.Remove(path)
 	if cs.usePath {
 		ex.Path = path
+		// every other file case exports over an EXISTING, longer file (an earlier export under the same
+		// name): the output must be the field's contents, not a mixture with what was there before
+		if cs.id%4 == 0 {
+			if err := ioutil.WriteFile(path, []byte(strings.Repeat("7,7\n", 96)), 0o644); err != nil {
+				panic(err)
+			}
+		}
 	}
 	if err := ex.Run(ctx); err != nil {
 		return "export-error:" + c30ErrClass(err), err.Error(), "export succeeds", "", keyClasses
